@@ -102,7 +102,7 @@ def replay(chk, records, skip=()):
     return bad
 
 
-def validate(chk, observations, skip=(), label='trace', timeout=900, workers=16):
+def validate(chk, observations, skip=(), label='trace', timeout=900, workers=16, light=False):
     """code -> spec: TLC validates recorded observations; returns list of (obs, failing, drift)."""
     if not observations:
         return []
@@ -114,10 +114,10 @@ def validate(chk, observations, skip=(), label='trace', timeout=900, workers=16)
     defs = ['MCScopes == <<>>', 'MCSources == {}',
             'MCUserSkip == {' + ', '.join(tlc.tla_seq(s) for s in skip) + '}']
     cfg = ('SPECIFICATION TSpec\nCONSTANTS\n Scopes <- MCScopes\n Sources <- MCSources\n'
-           ' UserSkip <- MCUserSkip\n DoB = TRUE\n DoC = TRUE\nINVARIANT Verdict\nCHECK_DEADLOCK FALSE\n')
+           ' UserSkip <- MCUserSkip\n DoB = TRUE\n DoC = TRUE\n Light = %s\nINVARIANT Verdict\nCHECK_DEADLOCK FALSE\n' % ('TRUE' if light else 'FALSE'))
     tlc.write_mc(d, 'MCT', 'StringsTrace', defs, cfg)
     res = tlc.run(d, 'MCT', timeout=timeout, workers=workers)
-    chk.add_tlc(label, res, 'StringsTrace: %d recorded observations' % len(observations))
+    chk.add_tlc(label, res, 'StringsTrace%s: %d recorded observations' % (' (outcome clauses only, no machine run)' if light else '', len(observations)))
     verdicts = {}
     for r in res.records:
         if 'tid' in r:
